@@ -15,6 +15,7 @@
 #           J <fn>                  clock jumps to frame fn (= idle ticks)
 # Answer: cfgerr:<Exc>  or  per-op observations joined by " ; " then " | " and the final state.
 from excname import exc_name
+import os
 import sys, types, logging
 
 sys.path.insert(0, sys.argv[1])
@@ -207,8 +208,23 @@ class Draw:
         Draw.k += 1
         return v
 
-fake_trx.random = types.SimpleNamespace(randint=Draw.randint)
-fake_pm.randint = Draw.randint
+def install_draws():
+    """the scripted random source in EVERY module of the toolkit that draws random numbers (wherever the classes live in
+    this tree): a module attribute `random` that is the stdlib module, and names bound to its functions by
+    `from random import randint`"""
+    import random as _random
+    tk = os.path.realpath(sys.argv[1]) + os.sep
+    scripted = types.SimpleNamespace(randint=Draw.randint)
+    for name, mod in list(sys.modules.items()):
+        f = getattr(mod, "__file__", None)
+        if not f or not os.path.realpath(f).startswith(tk):
+            continue
+        if getattr(mod, "random", None) is _random:
+            mod.random = scripted
+        if getattr(mod, "randint", None) is _random.randint:
+            mod.randint = Draw.randint
+
+install_draws()
 
 class StaleCounter(logging.Handler):
     """counts the reports of stale bursts.  The report is recognised by what it is about, not by its exact wording or level:
